@@ -33,7 +33,7 @@ Inductive node : Type :=
 | NPostfix  (t : tok) (prev : tok)                              (* ast.PostfixExpression *)
 | NInfix    (t : tok) (left right : option node)                (* ast.InfixExpression *)
 | NFor      (t : tok) (cond : option node) (body : option node) (* ast.ForExpression; body is an NStmts *)
-| NIf       (t : tok) (cond cons alt : option node)             (* ast.IfExpression *)
+| NIf       (t : tok) (cond csq alt : option node)             (* ast.IfExpression *)
 | NBuiltin  (t : tok) (params : option (list (option node)))    (* ast.Builtin; None = nil slice after a failed list *)
 | NFunc     (t : tok) (name : option tok) (params : option (list (option node))) (body : option node)
             (variadic is_lambda : bool)                         (* ast.FunctionLiteral *)
